@@ -10,4 +10,5 @@ open PgmVerif
 #print axioms PgmVerif.C12_toDag_acyclic
 #print axioms PgmVerif.C12_toDag_keeps_directed
 #print axioms PgmVerif.C12_toDag_only_orients
+#print axioms PgmVerif.C12_toDag_orients_all
 #print axioms PgmVerif.C12_meek_rules_sound
